@@ -66,3 +66,7 @@ func BlobGet(data []byte, dst interface{}) bool { return false }
 
 func LenOf(slice interface{}) int           { return 0 }
 func SwapElems(slice interface{}, i, j int) {}
+
+// Threads (C07): Go starts f on a second thread; Join waits for all of them.
+func Go(f func()) {}
+func Join()       {}
